@@ -209,9 +209,11 @@ package callbacks
 //@   do lastKind = result
 //@ func preload
 //@   tags C11
+//@   let sets0 = relSets
 //@   loop "i := 0; i < reflectValue.Len(); i++" entry-do relSets = 0
 //@   loop "i := 0; i < reflectValue.Len(); i++" invariant one-reset-per-parent-so-far: relSets == i
 //@   loop "i := 0; i < reflectValue.Len(); i++" exit-do resetUpTo = i
 //@   loop "i := 0; i < reflectResults.Len(); i++" entry-do cleanedKind = lastKind
 //@   loop "i := 0; i < reflectResults.Len(); i++" entry-do cleanupSets = relSets
+//@   loop "i := 0; i < reflectResults.Len(); i++" invariant a-single-parent-was-reset: cleanedKind == 25 ==> cleanupSets == sets0 + 1
 //@   loop "i := 0; i < reflectResults.Len(); i++" invariant every-parent-of-a-slice-was-reset: (cleanedKind == 23 || cleanedKind == 17) ==> cleanupSets == resetUpTo
